@@ -965,6 +965,24 @@ func (p *Program) renames(fi *FuncInfo) map[string]string {
 			}
 		}
 	}
+	// a recorded name that is still declared, but fewer times than recorded (`s := s` became `sub := s`: the loop variable s stays,
+	// the per-iteration copy has a new name): where the name does not resolve any more (lookupName consults this map only then -
+	// e.g. inside a literal that captured the copy) it is read as the still unmatched new local of the same type
+	thinned := map[string]bool{}
+	for _, r := range rec {
+		n := varName(r)
+		if thinned[n] || m[n] != "" || curCnt[n] == 0 || curCnt[n] >= recCnt[n] {
+			continue
+		}
+		thinned[n] = true
+		for _, f := range fresh[varType(r)] {
+			if !usedFresh[f] {
+				m[n] = f
+				usedFresh[f] = true
+				break
+			}
+		}
+	}
 	if p.renameCache == nil {
 		p.renameCache = map[*FuncInfo]map[string]string{}
 	}
